@@ -415,7 +415,51 @@ impl MetaMonitor {
     }
 
     // ------------------------------------------------------------------------------------- C16
+    /// which ids resolve must not depend on the supply order even when there are more terms than a
+    /// 16-bit index can hold
+    fn c16_many_terms(&self, rng: &mut Rng, out: &mut CaseOut) {
+        let n: u32 = 65_700;
+        let mut f = FactSet::default();
+        f.version = (2030, 6, 6);
+        for id in 1..=n {
+            f.terms.push(TermFact { id, name: format!("t{id}"), obsolete: false, replaced_by: None });
+            if id > 1 {
+                f.edges.push((id, if id <= 200 { rng.range(1, u64::from(id - 1)) as u32 } else { rng.range(1, 200) as u32 }));
+            }
+        }
+        f.recs[0].push(RecFact { id: 1, name: "G".into(), terms: vec![n, 70, 40_000] });
+        out.sig = hash_u64s(&[0x16a, f.content_hash()]);
+        out.nontrivial = true;
+        out.bucket("more_than_65535_terms");
+        out.case = Json::obj().set("kind", Json::s("65 700 terms in three supply orders")).set("path", Json::s("builder_minimal"));
+        let ids: Vec<u32> = (1..=n).collect();
+        let mut first: Option<Obs> = None;
+        for mode in [OrderMode::AsGiven, OrderMode::Reversed, OrderMode::Shuffled] {
+            let perm = drive::permute(&f, mode, rng);
+            let ont = match drive::via_builder(&perm, None, false) {
+                Ok(o) => o,
+                Err(e) => {
+                    out.violate("C16", &format!("order_rejected/builder_minimal/{mode:?}"), format!("{e}"));
+                    continue;
+                }
+            };
+            let obs = observe::walk(&ont, &ids, &mut out.events);
+            if let Some(fo) = &first {
+                let mut d = Vec::new();
+                observe::diff(fo, &obs, &mut d, &mut out.comparisons);
+                report("C16", "vs_first_order/builder_minimal/many_terms", &d, out);
+                out.bucket("permutation_pairs_compared");
+            } else {
+                first = Some(obs);
+            }
+        }
+    }
+
     fn c16_case(&self, label: &str, rng: &mut Rng, tier: Tier, out: &mut CaseOut) {
+        if label.starts_with("many") {
+            self.c16_many_terms(rng, out);
+            return;
+        }
         let idx: u64 = label.split(':').nth(1).unwrap().parse().unwrap_or(0);
         let family = idx % 3; // 0 builder, 1 binary, 2 text
         let cfg = GenCfg {
@@ -530,6 +574,7 @@ impl Monitor for MetaMonitor {
                 }
             }
             _ => {
+                v.push("many:0".to_string());
                 for i in 0..24 {
                     v.push(format!("cat:{i}"));
                 }
@@ -580,6 +625,7 @@ impl Monitor for MetaMonitor {
                 "path/jax_transitive",
                 "path/as_bytes_roundtrip",
                 "permutation_pairs_compared",
+                "more_than_65535_terms",
                 "child_id_below_parent_id",
                 "multi_parent",
             ],
